@@ -62,6 +62,14 @@ c16!(c16_label_ecl10_no_panic, 2, decode_label_never_panics(&ModernEclHooks));
 //@ C16 c16_ecl10_read_size17 quick default ECL (TH10+): read_instr on arbitrary header bytes whose size field is 17 (one more than the header) returns Ok or Err and never panics (no underflow, no failed assert, no out-of-range read)
 c16!(c16_ecl10_read_size17, 21, read_instr_never_panics::<17>(&ModernEclHooks, 6, 2, 17));
 
+//@ C16 c16_ecl10_read_size65535 quick default ECL (TH10+): read_instr on arbitrary header bytes whose size field is 65535 (the largest 16-bit value) returns Ok or Err and never panics (no sign extension into an absurd allocation; the short buffer ends in an end-of-file error)
+c16!(c16_ecl10_read_size65535, 20, read_instr_never_panics::<16>(&ModernEclHooks, 6, 2, 65535));
+//@ C16 c16_ecl10_read_size32784 quick default ECL (TH10+): read_instr on arbitrary header bytes whose size field is 32784 (0x8010: negative if read as a signed 16-bit value) returns Ok or Err and never panics (no sign extension into an absurd allocation; the short buffer ends in an end-of-file error)
+c16!(c16_ecl10_read_size32784, 20, read_instr_never_panics::<16>(&ModernEclHooks, 6, 2, 32784));
+
+//@ C16 c16_ecl10_read_any20 quick default ECL (TH10+): read_instr on 20 ARBITRARY bytes (size field symbolic too: every value, including sizes beyond the buffer, which end in an end-of-file error) returns Ok or Err and never panics
+c16!(c16_ecl10_read_any20, 24, read_instr_never_panics::<20>(&ModernEclHooks, 0, 0, 0));
+
 #[cfg(kani)]
 #[path = "/verif/.cache/playback/ecl_10.rs"]
 mod playback;
